@@ -82,7 +82,14 @@ def run(ctx):
         raise vlib.Inconclusive("concurrent driver produced nothing:\n" + out[-1500:])
     ctx.notes["concurrent_rounds"] = len(traces)
     ctx.sample(traces[0][:25])
-    vlib.check_traces(ctx, traces, "conc", module="TraceResolverCache", cfg="TraceResolverCache.cfg", specname="ResolverCache.tla")
+    # rounds run with SetCacheSize(1) / SetCacheSize(0) are validated against the specification with evictions enabled
+    plain = [tr for tr in traces if not tr[0]["scen"].get("evicts")]
+    evict = [tr for tr in traces if tr[0]["scen"].get("evicts")]
+    ctx.notes["concurrent_rounds_with_evictions"] = len(evict)
+    if plain:
+        vlib.check_traces(ctx, plain, "conc", module="TraceResolverCache", cfg="TraceResolverCache.cfg", specname="ResolverCache.tla")
+    if evict:
+        vlib.check_traces(ctx, evict, "conce", module="TraceResolverCache", cfg="TraceResolverCacheE.cfg", specname="ResolverCache.tla (evictions: cache of size 1 / no cache)")
     parked_stage(ctx)
     # what gets cached comes out of one DoH exchange: a response that is cut short, oversized or otherwise not a complete DNS
     # message is a failed lookup (nothing cached), for every framing of Doh.tla
